@@ -393,7 +393,9 @@ func AllCalls(fn *ssa.Function) []ssa.CallInstruction {
 func Returns(fn *ssa.Function) []*ssa.Return {
 	var out []*ssa.Return
 	Instrs(fn, func(in ssa.Instruction) {
-		if r, ok := in.(*ssa.Return); ok {
+		// the synthetic recover block (functions with defer) re-loads the
+		// result slots and returns; it is not a source-level return
+		if r, ok := in.(*ssa.Return); ok && in.Block() != fn.Recover {
 			out = append(out, r)
 		}
 	})
@@ -602,5 +604,33 @@ func TransitiveCallees(fn *ssa.Function, depth int) []*ssa.Function {
 		})
 	}
 	walk(fn, depth)
+	return out
+}
+
+// RetVals returns the values returned by r, looking through the spill that
+// go/ssa performs when the function has a defer: results are stored into
+// result Allocs, then `rundefers`, then re-loaded. For such a result the value
+// of the last store to the Alloc in the returning block is used; if there is
+// none (a named result assigned elsewhere) the load itself is returned.
+func RetVals(r *ssa.Return) []ssa.Value {
+	out := make([]ssa.Value, len(r.Results))
+	for i, v := range r.Results {
+		out[i] = v
+		u, ok := v.(*ssa.UnOp)
+		if !ok || u.Op != token.MUL {
+			continue
+		}
+		a, ok := u.X.(*ssa.Alloc)
+		if !ok {
+			continue
+		}
+		b := r.Block()
+		for j := len(b.Instrs) - 1; j >= 0; j-- {
+			if st, ok := b.Instrs[j].(*ssa.Store); ok && st.Addr == a {
+				out[i] = st.Val
+				break
+			}
+		}
+	}
 	return out
 }
